@@ -202,6 +202,23 @@ def check_network(ctx, net, ids=None, mol=None, tag=""):
     ctx.count("rt_strings_rules_arg")
     if got != exp:
         problems.append(("strings-roundtrip", f"parse_rxns(rules=...) {lines_plain} {rules_sorted}: got {got}"))
+    # (line, rule) tuples and the mapping form (distinct lines only)
+    H6 = CRNHyperGraph().parse_rxns(list(zip(lines_plain, rules_sorted)))
+    got6 = sorted((r, sorted(a.items()), sorted(b.items())) for r, a, b in edges_of(H6).values())
+    ctx.count("rt_strings_tuple_form")
+    if got6 != exp:
+        problems.append(("strings-roundtrip", f"parse_rxns([(line, rule)...]) {lines_plain}: got {got6}"))
+    if len(set(lines_plain)) == len(lines_plain):
+        H7 = CRNHyperGraph().parse_rxns(dict(zip(lines_plain, rules_sorted)))
+        got7 = sorted((r, sorted(a.items()), sorted(b.items())) for r, a, b in edges_of(H7).values())
+        if got7 != exp:
+            problems.append(("strings-roundtrip", f"parse_rxns({{line: rule}}) {lines_plain}: got {got7}"))
+    # suffix wins only when asked: explicit rule + suffix line
+    lines_sfx = C.hypergraph_to_rxn_strings(H, include_rule_suffix=True, sort=True)
+    H8 = CRNHyperGraph().parse_rxns(lines_sfx, rules=["zz"] * len(lines_sfx), prefer_suffix=True)
+    got8 = sorted((r, sorted(a.items()), sorted(b.items())) for r, a, b in edges_of(H8).values())
+    if got8 != exp:
+        problems.append(("strings-roundtrip", f"parse_rxns(prefer_suffix=True) {lines_sfx}: got {got8}"))
     # ---- species graph ---- #
     if all(a and b for _, a, b in net):
         S = C.hypergraph_to_species_graph(H, include_mol=True)
